@@ -47,7 +47,9 @@ def id_schema(exprs):
     ], {"query": "Q"})
 
 
-POSITIONS = ["plain", "alias", "spread", "variant"]
+POSITIONS = ["plain", "alias", "spread", "variant", "conditional", "conditional_variant"]
+COND = [("include", "c")]
+CVARS = [("c", "Boolean!", None)]
 
 
 def op_for(position, k):
@@ -58,6 +60,11 @@ def op_for(position, k):
         return Doc([Op("query", "Op", [Field("t", [Field(f, alias="a"), Field("s")])])]), ["t"], "a"
     if position == "spread":
         return Doc([FragDef("F", "T", [Field(f)]), Op("query", "Op", [Field("t", [Field("s"), Spread("F")])])]), ["t"], f
+    if position == "conditional":
+        # the field carries @include: the server may leave it out, so the Rust field is optional whatever the schema says
+        return Doc([Op("query", "Op", [Field("t", [Field(f, directives=COND), Field("s")])], CVARS)]), ["t"], f
+    if position == "conditional_variant":
+        return Doc([Op("query", "Op", [Field("node", [TN(), Inline("T", [Field(f, directives=COND), Field("n")])])], CVARS)]), ["node"], f
     return Doc([Op("query", "Op", [Field("node", [TN(), Inline("T", [Field(f), Field("n")])])])]), ["node"], f
 
 
@@ -190,13 +197,15 @@ def run(tier):
 
         def payload(v, absent=False):
             inner = {"s": "x"}
-            if m["pos"] == "variant":
+            if m["pos"] in ("variant", "conditional_variant"):
                 inner = {"__typename": "T", "n": 1}
             if not absent:
                 inner[m["wire"]] = v
             return {m["holder"][0]: inner}
 
         t = m["t"]
+        if m["pos"].startswith("conditional") and t[0] == "NN":
+            t = t[1]   # the response type of a conditional field is nullable at the outermost level
         for leaf in ("x", 7, "007", I64_MIN):
             v = value_of(t, leaf)
             for what in ("resp", "resp_str"):
